@@ -44,6 +44,9 @@ func hitOps(res *lib.Result, ops []Op) {
 		if o.K == "newbatch" && o.Wrap != "" && o.Idx {
 			res.Hit("newbatch:wrapped-in-" + o.Wrap)
 		}
+		if o.K == "newbatch" && o.U {
+			res.Hit(fmt.Sprintf("newbatch:size-hint=%d", batchSizeOf(o)))
+		}
 		if o.K == "lnew" {
 			res.Hit("lnew:" + o.Wrap + "-over-" + map[byte]string{'b': "batch", 'l': "layer"}[o.Src[0]])
 		}
